@@ -11,7 +11,7 @@ package main
 // is path-sensitive in two things only: the set of mutexes held and the stack
 // of registered defers; nodes reached with the same (statement, held set,
 // defers) are shared, so loops are loops.  Each node carries the held set with
-// which it is reached: that is the certificate the Coq checker (Model/LockProto.v,
+// which it is reached: that is the certificate the Coq checker (Model/LockTable.v,
 // table_ok) re-checks edge by edge, so the soundness of the lock-set reasoning
 // does not rest on this file — only the translation source -> graph does.
 //
@@ -82,6 +82,7 @@ type lkMu struct {
 	ID   int
 	Path string
 	RW   bool
+	Once bool // a sync.Once seen as a lock: exclusive while f runs, shared for ever after Do has returned
 }
 type lkNode struct {
 	ID    int
@@ -787,6 +788,13 @@ func (b *lkB) call(a *lkAct, fs []fr, c *ast.CallExpr) ([]fr, aval) {
 		if d, ok := b.decls[m]; ok {
 			return b.inlineDecl(a, fs, m, d, recv, args)
 		}
+		if recv.k == vSync && m.Name() == "Do" && len(args) == 1 && args[0].k == vFunc {
+			if rt := m.Type().(*types.Signature).Recv(); rt != nil {
+				if n, ok := namedFrom(rt.Type(), "sync"); ok && n == "Once" {
+					return b.onceDo(a, fs, recv.path, args[0], c), aval{}
+				}
+			}
+		}
 		if recv.k == vSync {
 			mode := "MWrite"
 			switch m.Name() {
@@ -841,6 +849,33 @@ func (b *lkB) lockOp(a *lkAct, fs []fr, recv aval, name string, c *ast.CallExpr)
 	}
 	b.bad("%s: %s on a mutex of the connection: not interpreted", b.site(c.Pos(), a), name)
 	return fs
+}
+
+// onceDo: sync.Once.Do(f).  The completion of f happens before the return of every Do; f runs at most once.  In
+// lock terms: f runs holding the Once exclusively, and whoever has returned from Do holds it shared from then on
+// (never released: f cannot run again).  Conflicting accesses inside f and after a Do are thereby excluded, as
+// they are in Go; accesses after Do in different goroutines are not ordered among themselves.
+func (b *lkB) onceDo(a *lkAct, fs []fr, path string, f aval, c *ast.CallExpr) []fr {
+	m := b.mu("once "+path, true)
+	b.t.Mus[m].Once = true
+	var pass, todo []fr
+	for _, x := range mergeFrs(fs) {
+		if x.ls.find(m) >= 0 {
+			pass = append(pass, x) // this goroutine has been through Do already: f does not run
+		} else {
+			todo = append(todo, x)
+		}
+	}
+	if len(todo) > 0 {
+		site := b.site(c.Pos(), a)
+		skip := b.emit(cloneFrs(todo), lkNode{Kind: "lock", M: m, Excl: false, Site: site + " Once.Do (already done)", Pos: c.Pos()})
+		run := b.emit(todo, lkNode{Kind: "lock", M: m, Excl: true, Site: site + " Once.Do (runs f)", Pos: c.Pos()})
+		run, _ = b.inlineLit(a, run, f.lit, f.env, nil)
+		run = b.emit(run, lkNode{Kind: "unlock", M: m, Excl: true, Site: site + " Once.Do (f done)", Pos: c.Pos()})
+		run = b.emit(run, lkNode{Kind: "lock", M: m, Excl: false, Site: site + " Once.Do (done)", Pos: c.Pos()})
+		pass = append(append(pass, skip...), run...)
+	}
+	return mergeFrs(pass)
 }
 
 func (b *lkB) external(a *lkAct, fs []fr, f *types.Func, recv aval, args []aval, c *ast.CallExpr) []fr {
@@ -1312,7 +1347,17 @@ func (b *lkB) loop(a *lkAct, fs []fr, label string, p token.Pos, head func([]fr)
 }
 
 // ---------------------------------------------------------------- driver
-func extractConnTable() (t *lkTable) {
+var lkMemo *lkTable
+
+// extractConnTable: the table of the source under $VERIF_REPO (computed once per process)
+func extractConnTable() *lkTable {
+	if lkMemo == nil {
+		lkMemo = extractConnTable0()
+	}
+	return lkMemo
+}
+
+func extractConnTable0() (t *lkTable) {
 	t = &lkTable{}
 	defer func() {
 		if e := recover(); e != nil {
@@ -1387,8 +1432,10 @@ func extractConnTable() (t *lkTable) {
 		root := &lkAct{name: name, env: map[types.Object]aval{}}
 		out := build(root, []fr{{[]int{start}, nil, [][]dcall{nil}}})
 		for _, f := range mergeFrs(out) {
-			if len(f.ls) > 0 {
-				b.bad("%s: returns on some syntactic path with a mutex still held", name)
+			for _, h := range f.ls {
+				if !t.Mus[h.M].Once {
+					b.bad("%s: returns on some syntactic path with a mutex still held", name)
+				}
 			}
 			exit := b.newNode(lkNode{Kind: "nop", LS: f.ls, Site: name + " return"})
 			b.connect(f.tails, exit)
